@@ -50,6 +50,12 @@ func c18ConsumerProperty(t *rapid.T) {
 		}
 		set[config.Weekdays] = strings.Join(l, ",")
 	}
+	// the schedule's consequences do not depend on the other reset options
+	for _, k := range []string{config.ResetOnDisconnect, config.ResetOnLogout, config.ResetOnLogon} {
+		if rapid.IntRange(0, 3).Draw(t, k) == 0 {
+			set[k] = "Y"
+		}
+	}
 	r, err := rig.New(rig.Config{ID: quickfix.SessionID{BeginString: "FIX.4.2", SenderCompID: "S", TargetCompID: "T"}, Settings: set, Initiator: rapid.Bool().Draw(t, "initiator")})
 	if err != nil {
 		t.Fatalf("harness: the settings %v were refused: %v", set, err)
